@@ -182,6 +182,10 @@ func refGarbage(n int) []byte { return stream(fmt.Sprintf("garbage/%d", n), n) }
 
 var cycleSizes = []int{0, 1, 2, 3, 255, 256, 65535}
 
+// bigSizes (schedule "big"): the largest contents lengths a 3-byte length field
+// can announce, 2^24-1 included
+var bigSizes = []int{1<<24 - 1 - 17, 1<<24 - 1 - 16, 1<<24 - 1}
+
 var (
 	patOnce sync.Once
 	patBuf  []byte
@@ -190,10 +194,30 @@ var (
 // contents returns the plaintext of packet i in direction dir (a window into a
 // fixed pseudo-random buffer; distinct offsets make neighbouring packets differ).
 func contents(dir byte, i, size int) []byte {
-	patOnce.Do(func() { patBuf = stream("pattern", 65535+4096) })
 	off := (i*7 + int(dir)*13) % 4096
+	if size > 65535 {
+		bigOnce.Do(func() {
+			// 16 MiB of pattern: a 1 MiB pseudo-random block repeated with a
+			// per-block counter byte (hashing 16 MiB would take too long)
+			blk := stream("big-pattern", 1<<20)
+			bigBuf = make([]byte, 0, 1<<24+4096)
+			for k := 0; len(bigBuf) < 1<<24+4096; k++ {
+				b := append([]byte(nil), blk...)
+				b[0] = byte(k)
+				bigBuf = append(bigBuf, b...)
+			}
+			bigBuf = bigBuf[:1<<24+4096]
+		})
+		return bigBuf[off : off+size]
+	}
+	patOnce.Do(func() { patBuf = stream("pattern", 65535+4096) })
 	return patBuf[off : off+size]
 }
+
+var (
+	bigOnce sync.Once
+	bigBuf  []byte
+)
 
 var (
 	windowSizes  = []int{3, 0, 17, 1, 5, 2}
@@ -218,6 +242,9 @@ func (c caseSpec) r2i(i int) (int, bool) {
 		}
 		return i % 2, i%2 == 1
 	}
+	if c.Sched == "big" {
+		return bigSizes[i%len(bigSizes)], false
+	}
 	return cycleSizes[(i+3)%len(cycleSizes)], i%2 == 0 && i != c.NPk-1
 }
 
@@ -228,7 +255,12 @@ func (c caseSpec) i2rCount() int {
 	return c.NPk
 }
 
-func (c caseSpec) i2r(i int) (int, bool) { return cycleSizes[i%len(cycleSizes)], i%2 == 1 }
+func (c caseSpec) i2r(i int) (int, bool) {
+	if c.Sched == "big" {
+		return bigSizes[(i+1)%len(bigSizes)], false
+	}
+	return cycleSizes[i%len(cycleSizes)], i%2 == 1
+}
 
 // ---- transcript -------------------------------------------------------------
 
